@@ -18,7 +18,7 @@ def tasks(tier):
     ts = []
     ts.append(Task('verifHarness_C20_time', [0], ARITH))
     ts.append(Task('verifHarness_C20_time', [1], ARITH))
-    for k, n in ([(1, 1), (1, 0), (1, 255)] if tier == "quick" else [(1, 0), (1, 3), (1, 254), (1, 255), (2, 1), (3, 1), (3, 3)]):
+    for k, n in ([(1, 1), (1, 0), (1, 255)] if tier == "quick" else [(1, 0), (1, 3), (1, 255), (2, 1), (3, 1)]):
         ts.append(Task('verifHarness_C20_write', [k, n, 0], ARITH))
     for k, n in ([(2, 1)] if tier == 'quick' else [(2, 1), (3, 1), (3, 3)]):
         maxlen = k * (8 + 25 + n)
